@@ -1851,7 +1851,7 @@ func runC10(c *Ctx) {
 	r.Assume("peer lists with data centers for only SOME entries: per-instance model only (missing ones default to each instance's own data center, so instances legitimately differ)")
 	r.Require("configurations", "selector_lists", "cells_decoded", "query_results_checked", "prepare_execute_checked", "instances_compared", "restarts_compared", "now_cells_checked", "count_cells_checked")
 
-	nCfg := c.Pick(200, 2000)
+	nCfg := c.Pick(200, 60000)
 	nLists := 30
 	if c.Replay != nil {
 		switch c.Replay["kind"] {
